@@ -9,6 +9,7 @@
 import SkModel.Proofs.ParInv
 import SkModel.Proofs.ParInvLocal
 import SkModel.Proofs.ParInvSync
+import SkModel.Proofs.ParInvLive
 
 namespace Sk
 open StoreInv Par
@@ -238,6 +239,106 @@ theorem C06_rets_resolve (hB : 0 < B) (h : PReach B progs s) {w : Nat}
   obtain ⟨i, h1, h2⟩ := hr k ns x hk hop
   exact ⟨i, h1, C06_resolve_worker hB h hd i x (mem_of_lookup h2)⟩
 
+/-! ### 5. no interleaving deadlocks -/
+
+/-- In every reachable state, as long as worker `w` is not `done`, some step is enabled: if the
+    lock is held, the holder's next step (`readPtr`/`writePtr`/`release`), otherwise a step of `w`
+    itself (a local micro-op — which cannot fail —, `acquire`, `syncStart`, `syncData`, `syncDone`). -/
+theorem C06_nodeadlock (hB : 0 < B) (h : PReach B progs s) (w : Nat) (hnd : (s.ws w).pc ≠ .done) :
+    ∃ l s', pstep s l = some s' := by
+  have inv := reach_inv hB h
+  obtain ⟨l, hl, -, -⟩ := enabled hB inv.i1 inv.i2 hnd
+  obtain ⟨s', hs'⟩ := Option.isSome_iff_exists.mp hl
+  exact ⟨l, s', hs'⟩
+
+/-- … more precisely: the enabled step belongs to the lock holder if there is one and to `w`
+    otherwise, and it is *productive* (not one of the repeatable reverse-map accesses of `sync`,
+    not a re-write of an item already synced), so that it decreases `C06_progress_measure`. -/
+theorem C06_nodeadlock_productive (hB : 0 < B) (h : PReach B progs s) (w : Nat)
+    (hnd : (s.ws w).pc ≠ .done) :
+    ∃ l s', pstep s l = some s' ∧ actor l = s.lock.getD w ∧ productive s l := by
+  have inv := reach_inv hB h
+  obtain ⟨l, hl, ha, hp⟩ := enabled hB inv.i1 inv.i2 hnd
+  obtain ⟨s', hs'⟩ := Option.isSome_iff_exists.mp hl
+  exact ⟨l, s', hs', ha, hp⟩
+
+/-- a local micro-operation that is ready never raises "failed to get store allocation" -/
+theorem C06_no_alloc_error (hB : 0 < B) (h : PReach B progs s) (w : Nat)
+    {ns : Ns} {v : Option Val} {rest : List (Ns × Option Val)}
+    (hops : (s.ws w).ops = (ns, v) :: rest) (hready : (s.ws w).localReady = true) :
+    ∃ st' r, (s.ws w).st.addTo (s.ws w).sup ns v = .ok (st', r) := by
+  have inv := reach_inv hB h
+  obtain ⟨st', r, e, -⟩ := local_spec hB inv.i1 inv.i2 w hops hready
+  exact ⟨st', r, e⟩
+
+/-! ### 6. non-vacuity: B = 2, two workers alternating at every possible step
+
+  Worker 0 stores a0 (tag t0) and b0; worker 1 stores a1 (tag t1) and a1 again (sequence id q1).
+  Worker 0 is granted [0,2) and [4,6), worker 1 [2,4) and [6,8); worker 0 syncs under the lock,
+  worker 1 without it. -/
+
+def C06_demo_progs : Nat → List (Ns × Option Val)
+  | 0 => microOps [(some "t0", none, some "a0"), (none, none, some "b0")]
+  | 1 => microOps [(some "t1", none, some "a1"), (none, some "q1", some "a1")]
+  | _ => []
+
+def C06_demo_labels : List PLbl :=
+  [ .acquire 0, .readPtr 0 0, .readPtr 0 0, .writePtr 0 2, .release 0,
+    .acquire 1, .local_ 0, .readPtr 1 2, .local_ 0, .readPtr 1 2, .local_ 0, .writePtr 1 4,
+    .release 1, .acquire 0, .local_ 1, .readPtr 0 4, .local_ 1, .readPtr 0 4, .local_ 1,
+    .writePtr 0 6, .local_ 1, .release 0, .local_ 1, .local_ 0, .acquire 1, .local_ 0,
+    .readPtr 1 6, .local_ 0, .readPtr 1 6, .writePtr 1 8, .release 1,
+    .acquire 0, .local_ 1, .syncData 0 0 "a0", .syncStart 1, .syncData 0 1 "t0",
+    .syncData 1 2 "a1", .syncData 0 4 "b0", .syncData 1 3 "t1",
+    .syncRevRead 0 .value "a0" false, .syncData 1 6 "q1", .syncRevWrite 0 .value "a0" 0,
+    .syncRevRead 1 .value "a1" false, .syncRevRead 0 .value "b0" false,
+    .syncRevWrite 1 .value "a1" 2, .syncRevWrite 0 .value "b0" 4,
+    .syncRevRead 1 .tag "t1" false, .syncRevRead 0 .tag "t0" false,
+    .syncRevWrite 1 .tag "t1" 3, .syncRevWrite 0 .tag "t0" 1,
+    .syncRevRead 1 .seq "q1" false, .release 0, .syncRevWrite 1 .seq "q1" 6,
+    .syncDone 0, .syncDone 1 ]
+
+/-- first-order view of a state (workers 0 and 1) -/
+structure C06_Obs where
+  ptr : Nat
+  lock : Option Nat
+  grants0 : List Nat
+  grants1 : List Nat
+  pc0 : PPc
+  pc1 : PPc
+  sdata : List (Nat × Val)
+  rets0 : List (Option Nat)
+  rets1 : List (Option Nat)
+  data0 : List (Nat × Val)
+  data1 : List (Nat × Val)
+deriving DecidableEq, Repr
+
+def C06_obs (s : PState) : C06_Obs :=
+  { ptr := s.ptr, lock := s.lock, grants0 := (s.ws 0).grants, grants1 := (s.ws 1).grants,
+    pc0 := (s.ws 0).pc, pc1 := (s.ws 1).pc, sdata := s.sdata,
+    rets0 := (s.ws 0).rets, rets1 := (s.ws 1).rets,
+    data0 := (s.ws 0).st.data, data1 := (s.ws 1).st.data }
+
+example : (prun (PState.init 2 C06_demo_progs) C06_demo_labels).map C06_obs =
+    some { ptr := 8, lock := none, grants0 := [0, 4], grants1 := [2, 6], pc0 := .done, pc1 := .done,
+           sdata := [(6, "q1"), (3, "t1"), (4, "b0"), (2, "a1"), (1, "t0"), (0, "a0")],
+           rets0 := [some 0, some 1, none, some 4, none, none],
+           rets1 := [some 2, some 3, none, some 2, none, some 6],
+           data0 := [(0, "a0"), (1, "t0"), (4, "b0")],
+           data1 := [(2, "a1"), (3, "t1"), (6, "q1")] } := by decide
+
+/-- the demo state is reachable, so all theorems above apply to it -/
+example : ∃ s, PReach 2 C06_demo_progs s ∧ (s.ws 0).pc = .done ∧ (s.ws 1).pc = .done ∧
+    s.sdata.lookup 4 = some "b0" ∧ s.sdata.lookup 2 = some "a1" := by
+  have h : (prun (PState.init 2 C06_demo_progs) C06_demo_labels).isSome = true := by decide
+  obtain ⟨s, hs⟩ := Option.isSome_iff_exists.mp h
+  have ho : (prun (PState.init 2 C06_demo_progs) C06_demo_labels).map
+      (fun s => ((s.ws 0).pc, (s.ws 1).pc, s.sdata.lookup 4, s.sdata.lookup 2)) =
+      some (.done, .done, some "b0", some "a1") := by decide
+  rw [hs] at ho
+  simp only [Option.map_some, Option.some.injEq, Prod.mk.injEq] at ho
+  exact ⟨s, ⟨_, hs⟩, ho.1, ho.2.1, ho.2.2.1, ho.2.2.2⟩
+
 end Sk
 
 #print axioms Sk.C06_disjoint
@@ -253,3 +354,6 @@ end Sk
 #print axioms Sk.C06_resolve
 #print axioms Sk.C06_rets
 #print axioms Sk.C06_rets_resolve
+#print axioms Sk.C06_nodeadlock
+#print axioms Sk.C06_nodeadlock_productive
+#print axioms Sk.C06_no_alloc_error
